@@ -31,14 +31,30 @@
 #include "response.h"
 #include "json/cJSON.h"
 
+/**
+ * Attaches item to object under key. If item is NULL (its creation failed)
+ * or can't be attached, item is released and -1 is returned.
+ */
+int add_item_to_object(cJSON *object, const char *key, cJSON *item)
+{
+	if (unlikely(item == NULL)) {
+		return -1;
+	}
+
+	if (unlikely(!cJSON_AddItemToObject(object, key, item))) {
+		cJSON_Delete(item);
+		return -1;
+	}
+
+	return 0;
+}
+
 static cJSON *add_subobject_to_object(const struct peer *p, cJSON *root, cJSON *value, const char *key)
 {
-	if (unlikely(value == NULL)) {
+	if (unlikely(add_item_to_object(root, key, value) < 0)) {
 		log_peer_err(p, "Could not allocate memory for %s object!\n", key);
 		cJSON_Delete(root);
 		root = NULL;
-	} else {
-		cJSON_AddItemToObject(root, key, value);
 	}
 	return root;
 }
@@ -114,8 +130,13 @@ static cJSON *create_error_object(const struct peer *p, int code, const char *ta
 	if ((tag != NULL) && (reason != NULL)) {
 		cJSON *data = cJSON_CreateObject();
 		if (likely(data != NULL)) {
-			cJSON_AddItemToObject(error, "data", data);
-			if (unlikely(add_subobject_to_object(p, data, cJSON_CreateString(reason), tag) == NULL)) {
+			if (unlikely(add_item_to_object(data, tag, cJSON_CreateString(reason)) < 0)) {
+				cJSON_Delete(data);
+				cJSON_Delete(error);
+				goto err;
+			}
+			if (unlikely(add_item_to_object(error, "data", data) < 0)) {
+				cJSON_Delete(error);
 				goto err;
 			}
 		}
@@ -136,8 +157,7 @@ cJSON *create_error_response(const struct peer *p, const cJSON *id, int code, co
 	}
 
 	cJSON *error = create_error_object(p, code, tag, reason);
-	if (likely(error != NULL)) {
-		cJSON_AddItemToObject(root, "error", error);
+	if (likely(add_item_to_object(root, "error", error) == 0)) {
 		return root;
 	} else {
 		cJSON_Delete(root);
@@ -171,7 +191,10 @@ cJSON *create_result_response(const struct peer *p, const cJSON *id, cJSON *resu
 		return NULL;
 	}
 
-	cJSON_AddItemToObject(root, result_type, result);
+	if (unlikely(add_item_to_object(root, result_type, result) < 0)) {
+		cJSON_Delete(root);
+		return NULL;
+	}
 	return root;
 }
 
